@@ -1342,3 +1342,99 @@ Proof.
       * unfold off_key_eqb. cbn. now rewrite !Z.eqb_refl.
       * exact IH.
 Qed.
+
+(* ================= C43 ================= *)
+Lemma NoDup_keys_functional {V} (l : list (Z * V)) k v1 v2 :
+  NoDup (akeys l) -> In (k, v1) l -> In (k, v2) l -> v1 = v2.
+Proof.
+  intros Hd H1 H2. apply (In_alookup k v1 l Hd) in H1. apply (In_alookup k v2 l Hd) in H2. congruence.
+Qed.
+
+Lemma c43_cleanup E s now g k m :
+  inv E s -> s_mem s = Some g -> In (k, m) (g_members g) ->
+  let s' := fst (step E s (Cleanup now)) in
+  (survives now g m = false ->
+     (s_mem s' = None /\ s_store s' = None) \/
+     (exists g', s_mem s' = Some g' /\ ~ In k (keys g') /\ g_gen g' = g_gen g + 1 /\ g_phase g' = PPreparing)) /\
+  (survives now g m = true -> exists g', s_mem s' = Some g' /\ In k (keys g')).
+Proof.
+  intros Hinv Hm Hin. cbn zeta. cbn [step]. rewrite Hm.
+  assert (load s now = Some g) as Hl by (unfold load; now rewrite Hm).
+  destruct (load_spec E s now Hinv) as [[Hn _]|[g0 [Hl0 [Hwf [Hst _]]]]]; [congruence|].
+  rewrite Hl in Hl0. inversion Hl0; subst g0.
+  pose proof (cleanup_g_spec E g now Hwf) as Hp.
+  destruct (cleanup_g g now) as [[g' r|g' r|r]|]; cbn in Hp.
+  - contradiction.
+  - destruct Hp as [_ [Hw' [Hg' [Hph' Hm']]]]. cbn. rewrite commit_group_eq by assumption. cbn.
+    assert (forall k', In k' (keys g') <-> exists m', In (k', m') (g_members g) /\ survives now g m' = true) as Hk.
+    { intros k'. unfold keys. rewrite Hm', akeys_reset. unfold akeys. rewrite in_map_iff. split.
+      - intros [[k2 m2] [H1 H2]]. cbn in H1. subst k2. apply filter_In in H2 as [H2 H3]. exists m2. auto.
+      - intros [m' [H1 H2]]. exists (k', m'). split; [reflexivity|]. apply filter_In. auto. }
+    split.
+    + intros Hs. right. exists g'. split; [reflexivity|]. split; [|auto].
+      intros Hc. apply Hk in Hc as [m' [H1 H2]].
+      assert (m = m') by (eapply NoDup_keys_functional; [apply (wf_nodup E g Hwf)|eauto|eauto]). congruence.
+    + intros Hs. exists g'. split; [reflexivity|]. apply Hk. eauto.
+  - destruct Hp as [_ Hall]. cbn. split.
+    + intros _. left. auto.
+    + intros Hs. rewrite (Hall k m Hin) in Hs. discriminate.
+  - destruct Hp as [Hnoexp Hnolag]. cbn. split.
+    + intros Hs. exfalso. unfold survives in Hs. rewrite (Hnoexp k m Hin) in Hs. cbn in Hs.
+      destruct (g_deadline g) as [d|] eqn:Ed; [|discriminate].
+      destruct (now <? d) eqn:Elt; [discriminate|]. cbn in Hs.
+      rewrite (Hnolag d eq_refl ltac:(lia) k m Hin) in Hs. discriminate.
+    + intros _. exists g. split; [exact Hm|]. unfold keys, akeys. apply in_map_iff. exists (k, m). auto.
+Qed.
+
+Lemma c43_heartbeat_refreshes E s now g mid :
+  inv E s -> cur s now = Some g -> In mid (keys g) ->
+  exists s' e g' m m', step E s (Heartbeat mid (g_gen g) now) = (s', RErr e) /\
+    (e = NONE \/ e = REBALANCE_IN_PROGRESS) /\ (e = NONE <-> g_phase g = PStable) /\
+    s_mem s' = Some g' /\ alookup mid (g_members g) = Some m /\ alookup mid (g_members g') = Some m' /\
+    m_hb m' = now /\ m_session m' = m_session m /\ m_joingen m' = m_joingen m /\ g_gen g' = g_gen g.
+Proof.
+  intros Hinv Hc Hin. unfold cur in Hc. cbn [step]. rewrite Hc.
+  destruct (load_spec E s now Hinv) as [[Hn _]|[g0 [Hl0 [Hwf _]]]]; [congruence|].
+  rewrite Hc in Hl0. inversion Hl0; subst g0.
+  pose proof (heartbeat_g_spec E g mid (g_gen g) now Hwf) as Hp. unfold heartbeat_g in *.
+  apply amem_In in Hin. unfold amem in Hin. destruct (alookup mid (g_members g)) as [m|] eqn:El; [|discriminate].
+  rewrite Z.eqb_refl in *. cbn [negb] in *. cbn in Hp. destruct Hp as [Hw' [_ [_ [_ [_ [_ [_ [_ [Hph _]]]]]]]]].
+  cbn. rewrite commit_group_eq by assumption.
+  eexists _, _, _, m, _. split; [reflexivity|]. split.
+  { destruct (phase_eqb (g_phase g) PStable); auto. }
+  split; [exact Hph|]. cbn. split; [reflexivity|]. split; [reflexivity|].
+  split; [apply alookup_aset_same|]. cbn. auto.
+Qed.
+
+Lemma survives_expired now g m : expired now m = true -> survives now g m = false.
+Proof. intros H. unfold survives. now rewrite H. Qed.
+
+Lemma survives_lagger now g m d :
+  g_deadline g = Some d -> d <= now -> m_joingen m <> g_gen g -> survives now g m = false.
+Proof.
+  intros Hd Hle Hn. unfold survives, lagging. rewrite Hd.
+  destruct (now <? d) eqn:E1; [lia|]. destruct (m_joingen m =? g_gen g) eqn:E2; [lia|].
+  cbn. now rewrite andb_false_r.
+Qed.
+
+Lemma survives_live now g m :
+  0 < m_session m -> now - m_hb m <= m_session m ->
+  (g_deadline g = None \/ (exists d, g_deadline g = Some d /\ now < d) \/ m_joingen m = g_gen g) ->
+  survives now g m = true.
+Proof.
+  intros Hs Hle Hd. unfold survives, expired, lagging.
+  destruct (m_session m =? 0) eqn:E0; [lia|].
+  destruct (now - m_hb m >? m_session m) eqn:E1; [lia|]. cbn.
+  destruct Hd as [->|[[d [-> Hlt]]|Hj]]; [reflexivity| |].
+  - destruct (now <? d) eqn:E2; [reflexivity|lia].
+  - destruct (g_deadline g); [|reflexivity]. destruct (m_joingen m =? g_gen g) eqn:E3; [|lia].
+    cbn. now rewrite andb_false_r.
+Qed.
+
+Lemma C15_store_is_persisted_memory_aux E h g :
+  s_mem (run E h) = Some g -> s_store (run E h) = Some (pview E g) /\ wf E g.
+Proof.
+  intros Hm. pose proof (run_inv E h) as Hinv. unfold inv in Hinv.
+  destruct (s_store (run E h)) as [pg|]; [|congruence].
+  destruct Hinv as [g0 [Hw [Hp [H|H]]]]; [congruence|]. rewrite Hm in H. inversion H; subst. auto.
+Qed.
